@@ -118,8 +118,26 @@ def gen_case(rng, tier):
     ops = []
     for _ in range(rng.randint(2, 14 if tier == "quick" else 32)):
         k = rng.randrange(K)
-        kind = rng.choice(("fit", "fit", "transform", "transform", "fit_transform", "transform2"))
+        kind = rng.choice(("fit", "fit", "transform", "transform", "fit_transform", "transform2", "set"))
         op = {"inst": k, "op": kind, "data": rng.randrange(n_data)}
+        if kind == "set":
+            # the user fixes (or releases) a parameter on the live object, the way set_params / grid searches do
+            if insts[k]["type"] == "landscaper":
+                op["param"] = rng.choice(("start", "stop", "stop", "num_steps"))
+                if op["param"] == "num_steps":
+                    op["val"] = rng.choice((5, 9, 17, 33))
+                else:
+                    op["val"] = rng.choice((None, "current", "current", -2.0, 0.0, 3.0, 8.0, 25.0, 150.0))
+                op["via"] = rng.choice(("attr", "set_params"))
+            else:
+                op["param"] = rng.choice(("pixel_size", "pixel_size", "birth_range", "pers_range"))
+                if op["param"] == "pixel_size":
+                    op["val"] = rng.choice((0.1, 0.25, 0.5, 0.3, 1.0)) * rng.choice((1.0, 1.0, 2.0))
+                else:
+                    lo = rng.choice((0.0, -1.0, 0.5, 10.0))
+                    op["val"] = [lo, lo + rng.choice((1.0, 2.5, 4.0))]
+            ops.append(op)
+            continue
         if insts[k]["type"] == "imager" and rng.random() < 0.2:
             op["alias"] = rng.randrange(4)        # the collection lists one of its array objects a second time
         if insts[k]["type"] == "imager" and rng.random() < 0.3:
@@ -280,7 +298,10 @@ def _call(site, fn, *a, **k):
 def _run(case, sched, world):
     inp = case["inputs"]
     insts = inp["insts"]
+    insts = copy.deepcopy(insts)          # the user-fixed parameters of each instance evolve with "set" operations
     ests = [make(it) for it in insts]
+    learned = [set() for _ in ests]       # landscaper limits currently holding a learned (not user-fixed) value
+    user_sets = 0
     nfits = [0] * len(ests)
     last_fit_data = [None] * len(ests)
     fitted_on = [[] for _ in ests]
@@ -294,6 +315,62 @@ def _run(case, sched, world):
             raise InvalidCase("op refs")
         it, est = insts[k], ests[k]
         tname = "PersistenceImager" if it["type"] == "imager" else "PersistenceLandscaper"
+        if kind == "set":
+            prm, val = op.get("param"), op.get("val")
+            user_sets += 1
+            if it["type"] == "landscaper":
+                if prm not in ("start", "stop", "num_steps") or op.get("via") not in ("attr", "set_params"):
+                    raise InvalidCase("set")
+                if val == "current":
+                    val = getattr(est, prm)          # the user pins whatever the object reports right now
+                    if val is not None:
+                        val = float(val)
+                if prm == "num_steps":
+                    if not isinstance(val, int) or not 3 <= val <= 2000:
+                        raise InvalidCase("num_steps")
+                elif val is not None and not isinstance(val, (int, float)):
+                    raise InvalidCase("limit")
+                # keep the grid non-degenerate with respect to the other limit as far as it is known
+                other = getattr(est, "stop" if prm == "start" else "start") if prm != "num_steps" else None
+                if prm == "start" and val is not None and other is not None and not val < other:
+                    continue
+                if prm == "stop" and val is not None and other is not None and not val > other:
+                    continue
+                site = "PersistenceLandscaper.%s=" % prm if op["via"] == "attr" else "PersistenceLandscaper.set_params(%s)" % prm
+                if op["via"] == "attr":
+                    _call(site, setattr, est, prm, val)
+                else:
+                    _call(site, est.set_params, **{prm: val})
+                if val is None:
+                    it["args"].pop(prm, None)
+                else:
+                    it["args"][prm] = val
+                learned[k].discard(prm)
+                got = getattr(est, prm)
+                if not (got is None and val is None) and not (got is not None and val is not None and float(got) == float(val)):
+                    raise Violation("user-fixed-parameter-kept", site, prm, "assigned %r, the object reports %r" % (val, got), opi)
+            else:
+                if prm == "pixel_size":
+                    if not isinstance(val, (int, float)) or not val > 0:
+                        raise InvalidCase("pixel_size")
+                    w_, h_ = float(est.width), float(est.height)
+                    ext = [max(np.ptp(np.vstack([ic.arr(d) for d in coll])[:, q]) for coll in inp["idata"]) for q in (0, 1)]
+                    cfg_ext = max(it["cfg"]["birth_range"][1] - it["cfg"]["birth_range"][0],
+                                  it["cfg"]["pers_range"][1] - it["cfg"]["pers_range"][0])
+                    if max(w_, h_) / val > 60 or cfg_ext / val > 40 or 2.5 * max(ext) / val > 120:
+                        continue                      # keeps every later image small; not a statement about persim
+                    _call("PersistenceImager.pixel_size=", setattr, est, "pixel_size", float(val))
+                    it["cfg"]["pixel_size"] = float(val)
+                elif prm in ("birth_range", "pers_range"):
+                    if not (isinstance(val, list) and len(val) == 2 and val[1] > val[0]):
+                        raise InvalidCase("range")
+                    if (val[1] - val[0]) / float(est.pixel_size) > 60:
+                        continue
+                    _call("PersistenceImager.%s=" % prm, setattr, est, prm, (float(val[0]), float(val[1])))
+                else:
+                    raise InvalidCase("set")
+            sched.note("op%d set inst%d %s=%r" % (opi, k, prm, val))
+            continue
         X = data_for(it, inp, j)
         if it["type"] == "imager" and op.get("dtype") is not None:
             if op["dtype"] != "f32" or op.get("form") == "lists":
@@ -343,6 +420,8 @@ def _run(case, sched, world):
             evals += 1
             fitted_on[k].append(j)
             last_fit_data[k] = j
+            if it["type"] == "landscaper":
+                learned[k] = {q for q in ("start", "stop") if q not in it["args"]}
             tw = fresh_twin_fitted()
             diff = same_state(pub_state(it, tw), pub_state(it, est))
             if diff is not None:
@@ -362,7 +441,7 @@ def _run(case, sched, world):
                                 "transform after this fit differs from a fresh twin fitted on the same data only "
                                 "(earlier fits on %r)" % (fitted_on[k][:-1],), opi)
         elif kind in ("transform", "transform2"):
-            if nfits[k] == 0 and it["type"] == "landscaper" and not ("start" in it["args"] and "stop" in it["args"]):
+            if it["type"] == "landscaper" and any(q not in it["args"] and q not in learned[k] for q in ("start", "stop")):
                 # never fitted and no user-fixed grid: the output is derived from the call's own data; the only
                 # clauses that apply are "repeatable" and "does not alter the transformer's state"
                 site = "PersistenceLandscaper.transform(unfitted)"
@@ -421,6 +500,7 @@ def _run(case, sched, world):
                    "landscapers": sum(1 for i in insts if i["type"] == "landscaper"),
                    "imagers": sum(1 for i in insts if i["type"] == "imager"),
                    "user_fixed_start_or_stop": sum(1 for i in insts if i["type"] == "landscaper" and ("start" in i["args"] or "stop" in i["args"])),
+                   "user_parameter_assignments": user_sets,
                    "mode:" + world.mode: 1},
         "faults": dict(world.stats, interleaved_estimators=int(len(insts) >= 2)),
     }
